@@ -324,7 +324,7 @@ class C28(Property):
         'C28_linearize_is_derivative_weighted', 'C28_linearize_is_derivative_linear',
         'C28_linearize_is_derivative_rbf', 'C28_linearize_is_derivative_kriging',
         'C28_rbf_dbasis', 'C28_rbf_dbasis_partial', 'C28_rbf_dbasis_shipped_counterexample',
-        'C28_comp_vec_entry', 'C28_comp_vec_entry_unique',
+        'C28_comp_vec_entry', 'C28_comp_vec_entry_unique', 'C28_interp_at_train',
     ]
     rule = ("direct cases: training set with 1-4 inputs (RBF up to 6), 1-2 outputs, 2-30 distinct "
             "points on an integer grid / dyadic k/16 lattice / tight dyadic cluster, outputs an exact "
@@ -538,7 +538,7 @@ class C28(Property):
             off = [r * F(rng.choice([-1, 1]), 2 ** 20) for r in nb.tpr]
             qs.append({'kind': 'stale', 'i': i, 'a': rats(X[i]),
                        'x': rats([a + b for a, b in zip(X[i], off)])})
-        if spec['type'] == 'nn_weighted' and rng.random() < 0.15:
+        if spec['type'] == 'nn_weighted' and rng.random() < 0.15 and len(X) >= 3:
             q = dict(qs[-1] if qs[-1]['kind'] == 'rand' else {'kind': 'rand', 'x': qs[0]['x']})
             q['kind'] = 'kwswitch'
             q['first_nn'] = rng.choice([2, 3])
@@ -603,7 +603,7 @@ class C28(Property):
                 'fmt': rng.choice(['array', 'list'])}
 
     def cases(self, rng, tier):
-        n_direct, n_comp = (230, 45) if tier == 'quick' else (5000, 700)
+        n_direct, n_comp = (200, 40) if tier == 'quick' else (5000, 700)
         for k in range(n_direct + n_comp):
             if k % 6 == 5 and n_comp > 0:
                 n_comp -= 1
@@ -665,20 +665,21 @@ class C28(Property):
             x = np.array([float(unrat(v)) for v in q['x']])
             out = {}
             try:
-                if q['kind'] == 'stale':
-                    a = np.array([float(unrat(v)) for v in q['a']])
-                    do_predict(s, a, kw)
-                    J = do_linearize(s, x, kw, nout, nin)
+                if q['kind'] in ('stale', 'kwswitch'):
+                    if q['kind'] == 'stale':
+                        a = np.array([float(unrat(v)) for v in q['a']])
+                        do_predict(s, a, kw)
+                    else:
+                        kw1 = dict(kw)
+                        kw1['num_neighbors'] = q['first_nn']
+                        do_predict(s, x, kw1)
+                    try:
+                        J = do_linearize(s, x, kw, nout, nin)
+                        out['jac'] = fmat(J)
+                    except Exception as e:
+                        out['jac_error'] = err_enum(e)
+                        out['jac_msg'] = str(e)[:160]
                     p, rm = do_predict(s, x, kw)
-                    out['jac'] = fmat(J)
-                    out['pred'] = fvec(p)
-                elif q['kind'] == 'kwswitch':
-                    kw1 = dict(kw)
-                    kw1['num_neighbors'] = q['first_nn']
-                    do_predict(s, x, kw1)
-                    J = do_linearize(s, x, kw, nout, nin)
-                    p, rm = do_predict(s, x, kw)
-                    out['jac'] = fmat(J)
                     out['pred'] = fvec(p)
                 else:
                     p, rm = do_predict(s, x, kw)
@@ -850,11 +851,24 @@ class C28(Property):
         if 'harness_error' in impl:
             return [{'what': 'harness error: ' + impl['msg'], 'surrogate': t, 'clause': 'harness',
                      'detail': impl['harness_error']}]
-        if 'train_error' in impl:
-            return []
         X = mat_unrat(case['X'])
         Y = mat_unrat(case['Y'])
         m, nin, nout = len(X), len(X[0]), len(Y[0])
+        if 'train_error' in impl:
+            # training may refuse: too few points for the requested neighbours, or the Kriging
+            # likelihood optimiser (third party) reporting failure; anything else is a failure
+            ok = False
+            if t == 'nn_rbf':
+                N = spec['init'].get('num_neighbors', 5)
+                ok = m < N or N < 2
+            elif t == 'nn_linear':
+                ok = m < nin + 1
+            elif t == 'kriging':
+                ok = m < 2 or 'optimization failed' in impl.get('msg', '')
+            if ok:
+                return []
+            return [{'what': 'train raised %s: %s' % (impl['train_error'], impl.get('msg')),
+                     'surrogate': t, 'clause': 'train', 'detail': 'raises'}]
         Yf = np.array([[float(v) for v in r] for r in Y])
         Xf = np.array([[float(v) for v in r] for r in X])
         ysc = np.maximum(1.0, np.abs(Yf).max(axis=0))
@@ -1025,12 +1039,17 @@ class C28(Property):
                     p = kw.get('dist_eff', 0) or (nin + 1)
                     qa['k'] = k
                     qa['p'] = p
-                    if m < k:
+                    if m < k or (q['kind'] == 'kwswitch' and m < q['first_nn']):
                         qa['expect_error'] = True
                     qa['tie'] = nb.tie(k)
-                    qa['fd_ok'] = (not qa['tie']) and nb.gap(k) > 32 * hn and dmin > 100 * hn
+                    # at a training input itself the interpolant is flat for dist_eff >= 2 (and the
+                    # symmetric stencil sees it); near, but not at, a training input the stencil
+                    # would straddle the node
+                    qa['fd_ok'] = (not qa['tie']) and nb.gap(k) > 32 * hn and \
+                        (dmin > 100 * hn or (dmin == 0 and p >= 2))
                     if dmin == 0:
                         qa['nonfinite_detail'] = 'exact_hit'
+                        qa['fd_detail'] = 'exact_hit'
                     if q['kind'] == 'stale':
                         qa['nonfinite_detail'] = 'stale_cache'
                         qa['fd_detail'] = 'stale_cache'
@@ -1341,6 +1360,8 @@ class C28(Property):
             for qi, (q, qa) in enumerate(zip(case['queries'], info['q'])):
                 if qa.get('expect_error') or qa['tie'] or qa['neigh_class'] != 'regular':
                     continue
+                if q['kind'] in ('stale', 'kwswitch'):
+                    continue        # what linearize returns there depends on the neighbour cache
                 if qa.get('kappa', 1.0) > 1e5:
                     continue
                 nb = qa['nb']
@@ -1482,6 +1503,13 @@ class C28(Property):
                 o = impl['queries'][qi]
                 if 'pred' not in o:
                     continue
+                # the correlations supplied to the model are exp() of the exponents it computed itself
+                req_r = np.exp(np.array([float(unrat(v)) for v in a['expo']]))
+                th_, Xn_ = vec(impl['attrs']['thetas']), arr(impl['attrs']['Xn'])
+                x_ = np.array([float(unrat(v)) for v in case['queries'][qi]['x']])
+                xn_ = (x_ - vec(impl['attrs']['X_mean'])) / vec(impl['attrs']['X_std'])
+                if not np.allclose(req_r, np.exp(-((xn_ - Xn_) ** 2) @ th_), rtol=1e-9, atol=1e-300):
+                    return 'kriging: exponents of the model differ from the harness correlations'
                 al = np.abs(arr(impl['attrs']['alpha'])).sum(axis=0) * vec(impl['attrs']['Y_std'])
                 sc = np.maximum(ysc, al)
                 if not close(vec(o['pred']), U(a['pred']), sc, 1e-8):
